@@ -10,8 +10,9 @@ From CV Require Import Base.Bytes Lit.Defs Lit.Platform.
 Local Open Scope N_scope.
 
 (* replaceEscapeSequences (lib/utils.cpp), length of the result only: \n \r \t, \x with at most two hex
-   digits, \0 with at most two more octal digits; after any other backslash the next character is
-   copied (so '\377' counts as three characters). Token::isCChar <-> the count is 1 *)
+   digits, an octal digit with at most two more octal digits (since /repo 6f10427; before, only \0oo,
+   so '\377' counted as three characters); after any other backslash the next character is copied.
+   Token::isCChar <-> the count is 1 *)
 Definition skip2 (pr : N -> bool) (r : str) : str :=
   match r with
   | a :: r' => if pr a then match r' with b :: r'' => if pr b then r'' else r' | [] => r' end else r
@@ -29,7 +30,7 @@ Fixpoint escape_count_go (fuel : nat) (s : str) : N :=
           else match r with
                | [] => 1
                | e :: r2 => if e =? 120 then 1 + escape_count_go f (skip2 is_xdigit r2)
-                            else if e =? 48 then 1 + escape_count_go f (skip2 is_octdigit r2)
+                            else if is_octdigit e then 1 + escape_count_go f (skip2 is_octdigit r2)
                             else 1 + escape_count_go f r2
                end
       end
